@@ -6,6 +6,12 @@
 (* decision-table cases and Violations for delivered operations.  The pre-   *)
 (* state of the downstream (which incarnation of each object of the chain    *)
 (* exists) and the incarnation every request hit are logged by the fake.     *)
+(* Ghost ks (positive knowledge): an object was seen alive by the writer     *)
+(* when a Describe* call of its level succeeded or the writer's own create   *)
+(* of it took effect; clause NoBlindApply uses it.  An operation step whose  *)
+(* "inflight" is a create kind is an overtaking operation: when the create   *)
+(* was handled while the operation's probe was in flight (ran2), the         *)
+(* operation is judged against the downstream after the create (m* fields).  *)
 (*                                                                           *)
 (* Known findings (env KF_<name>): the named deviation is tolerated and a    *)
 (* line "KF <plan> <name>" is printed when it was needed.                    *)
@@ -56,6 +62,22 @@ Stale(e, w, k, o, t) ==
            \/ (n >= 2 /\ (c.hcoll > t \/ SeqMax(c.hcolls) > t))
            \/ (n >= 3 /\ SeqMax(c.hparts) > t)
 
+\* the probe of level i of the chain
+DescribeApi(i) == CASE i = 1 -> "DescribeDatabase" [] i = 2 -> "DescribeCollection" [] OTHER -> "DescribePartition"
+\* downstream after an in-flight create (logged when the create was handled while the probe was in flight)
+DnMid(e, o) == [x \in Obj |-> IF x = Prefix(o, 1) THEN Pos(e.mdb)
+                              ELSE IF Len(o) >= 2 /\ x = Prefix(o, 2) THEN Pos(e.mcoll)
+                              ELSE IF Len(o) >= 3 /\ x = o THEN Pos(e.mpart) ELSE 0]
+\* positive knowledge after the calls of operation w (kind k on object o): every level whose probe succeeded and the object
+\* that the operation created.  kdAt(i) = the recorded drop times when call i was made.
+KsObs(e, w, k, o, kdAt(_), k_s) ==
+    [x \in Obj |->
+        LET P == {i \in CallsOf(e, w) : /\ ~e.calls[i].failed
+                                        /\ \/ \E j \in 1..Len(o) : x = Prefix(o, j) /\ e.calls[i].api = DescribeApi(j)
+                                           \/ (IsCreate(k) /\ x = o /\ e.calls[i].api = OwnApi(k))}
+        IN IF P = {} THEN k_s[x]
+           ELSE LET i == CHOOSE m \in P : \A n \in P : n <= m IN Pos(kdAt(i)[x])]
+
 SeedFun(seed) == [x \in Obj |-> LET S == {i \in 1..Len(seed) : ObjOfNames(seed[i].db, seed[i].coll, seed[i].part) = x} IN
                                 IF S = {} THEN Unk ELSE seed[CHOOSE i \in S : TRUE].d]
 
@@ -75,15 +97,16 @@ CaseStep(e) ==
         good == IF e.via = "wait" THEN StateAllowed(cls, e.exists, e.state)
                 ELSE CASE cls = "skip"  -> e.ok /\ ~e.applied
                        [] cls = "apply" -> e.applied /\ (e.exists => e.ok)
-                       [] cls = "probe" -> IF e.exists THEN e.applied /\ e.ok ELSE ~e.ok
+                       \* the records do not say that the incarnation existed at t: executed only after a probe found it
+                       [] cls = "probe" -> IF e.exists THEN e.applied /\ e.ok ELSE ~e.ok /\ ~e.applied
                        [] OTHER -> TRUE
         kf == ~good /\ e.via = "alterDatabase" /\ KFOn("C08_ALTERDB_UNCHECKED")
     IN /\ e.level \in {"db", "coll", "part"}
        /\ good \/ kf
        /\ (kf => PrintT("KF " \o Traces[tr].plan \o " C08_ALTERDB_UNCHECKED"))
-       /\ kd' = kd
+       /\ kd' = kd /\ ks' = ks
 
-RestartStep(e) == kd' = SeedFun(e.seed)
+RestartStep(e) == kd' = SeedFun(e.seed) /\ ks' = [x \in Obj |-> Unk]
 
 DeliverStep(e) ==
     LET k  == e.kind
@@ -98,19 +121,30 @@ DeliverStep(e) ==
         i2 == two /\ Issued(e, 2, k2)
         x2 == two /\ Executed(e, 2, k2)
         s2 == two /\ Stale(e, 2, k2, o2, e.t2)
-        \* order: in flight (ran2) = the drop was handled before the main request got its answer; else after the main operation
+        over == two /\ IsCreate(k2)        \* overtaking operation: the second operation is the create of a level of the chain
+        \* order: in flight (ran2) = the second operation was handled before the main request got its answer (a drop) / before the
+        \* main operation's probe got its answer (a create); else after the main operation
         kdA == IF two /\ e.ran2 THEN KdAfter(k2, o2, e.t2, e.ok2, i2, kd) ELSE kd
         kdB == KdAfter(k, o, e.t, e.ok, i1, kdA)
         kdC == IF two /\ ~e.ran2 THEN KdAfter(k2, o2, e.t2, e.ok2, i2, kdB) ELSE kdB
-        V1 == Violations(k, o, e.t, kd, kdB, dn0, e.ok, i1, x1, s1, e.fail \/ (two /\ e.ran2))
-        V2 == IF two THEN Violations(k2, o2, e.t2, IF e.ran2 THEN kd ELSE kdB, kdC, dn0, e.ok2, i2, x2, s2, FALSE) ELSE {}
+        \* the recorded drop times when call i was made
+        After2(i) == \E j \in CallsOf(e, 2) : j < i
+        kdAt1(i) == IF two /\ e.ran2 /\ After2(i) THEN kdA ELSE kd
+        kdAt2(i) == IF e.ran2 THEN kd ELSE kdB
+        \* knowledge when the main operation decides: nothing new, except what an overtaken create that landed meanwhile taught
+        ks1 == IF over /\ e.ran2 THEN KsObs(e, 2, k2, o2, kdAt2, ks) ELSE ks
+        dn1 == IF over /\ e.ran2 THEN DnMid(e, o) ELSE dn0
+        ksB == KsObs(e, 1, k, o, kdAt1, ks1)
+        ksC == IF two /\ ~(over /\ e.ran2) THEN KsObs(e, 2, k2, o2, kdAt2, ksB) ELSE ksB
+        V1 == Violations(k, o, e.t, kd, kdB, ks1, dn1, e.ok, i1, x1, s1, e.fail \/ (two /\ ~over /\ e.ran2))
+        V2 == IF two THEN Violations(k2, o2, e.t2, IF e.ran2 THEN kd ELSE kdB, kdC, IF e.ran2 THEN ks ELSE ksB, dn0, e.ok2, i2, x2, s2, FALSE) ELSE {}
         E1 == Excuse(V1, k, o, e.t, dn0, i1, x1)
         E2 == Excuse(V2, k2, o2, e.t2, dn0, i2, x2)
     IN /\ k \in AllKinds /\ o \in Obj /\ Len(o) = KindLevel(k)
-       /\ (two => IsDrop(k2) /\ KindLevel(k2) <= Len(o))
+       /\ (two => (IsDrop(k2) \/ IsCreate(k2)) /\ KindLevel(k2) <= Len(o))
        /\ "-" \notin (E1 \cup E2)
        /\ \A n \in (E1 \cup E2) : PrintT("KF " \o Traces[tr].plan \o " " \o n)
-       /\ kd' = kdC
+       /\ kd' = kdC /\ ks' = ksC
 
 TStep ==
     /\ l <= Len(Traces[tr].events)
